@@ -45,7 +45,7 @@ sort orders the implementation's `argsort` returned; they must weakly sort the u
 def mapfork (p : Prov.P) (simple : Bool) (labels : List Nat) (dist : List (List Rat)) (util : List (List Rat))
     (nulls : List Rat) (nb : Nat) (orders : Option (List (List Nat))) : Except Err (List Rat) := do
   let (ul, ud) ← if simple then pure (labels.map (fun l => List.replicate nb l), dist)
-                 else do let ro ← rowsOf p; Kernel.unitReduce ro labels dist nb
+                 else do let ro ← rowsOf p; pure (Kernel.unitReduce ro labels dist nb util.length)
   let n := ul.length
   let ords ← match orders with
     | none => pure ((List.range nb).map (fun j => Kernel.argsortStable (column ud j 0)))
